@@ -20,7 +20,8 @@ RULE = ("every front/on/behind sign sequence of length 0..6 (quick) / 0..8 (thor
 TRUSTED = ["Coq 8.16.1 kernel, vm_compute for the correspondence evaluation",
            "axioms (Print Assumptions): ClassicalDedekindReals.sig_forall_dec, sig_not_dec, "
            "FunctionalExtensionality.functional_extensionality_dep, Classical_Prop.classic (all Coq stdlib Reals)",
-           "tools/symtrace.py tracing translator + numpy shim (re-validated numerically each run)",
+           "tools/symtrace.py tracing translator + numpy shim (re-validated numerically each run); 16 fixed-size traces of "
+           "Polyline.sliced_by_plane (symbolic vertices and plane) tie the list-level model to the code per sign scenario",
            "coq/Agree.v agreement relation (tolerance 1e-9 relative to the input magnitude; sign sequences compared "
            "only when every |signed distance| > 1e-8 * magnitude unless arithmetic is exact)",
            "NumPy, vg"]
@@ -52,6 +53,109 @@ Proof. intros {vars} Hden Hpath. unfold {T}_path in Hpath. cbv zeta in Hpath. ro
   rewrite Et. unfold {T}. cbv zeta. cbn [List.nth]. rops. cbv [vadd vscale vx vy vz]. rops.
   first [reflexivity | (f_equal; apply V3_ext; ring)]. Qed.""" % (D, N, S, D, R_, N, S, D, R_, N),
         imports=IMPORTS + [("PW.proofs", "P_vec"), ("PW.proofs", "P_polyline_slice")]))
+    ks.extend(_slice_kernels())
+    return ks
+
+
+# scenarios traced through the real Polyline.sliced_by_plane at fixed sizes: (pattern of Front / On / Behind, closed)
+SLICE_SCENARIOS = [
+    ("BFFB", False), ("OFB", False), ("FFB", False), ("BF", False), ("BOFFO", False), ("OBFB", False),
+    ("BFF", True), ("FBBF", True), ("FFOB", True), ("OFF", True), ("BFB", True),
+    # refusals
+    ("FF", False), ("BOB", False), ("FBF", False), ("FFF", True), ("FBFB", True), ("", False),
+]
+
+
+def _expected_rows(pat, closed):
+    """the property text for one sign pattern: None = ValueError, else a list of ("v", i) / ("x", a, b)"""
+    n = len(pat)
+    front = [ch == "F" for ch in pat]
+    if n == 0 or not any(front) or all(front):
+        return None
+    cyc = closed and n > 1
+    starts = [i for i in range(n) if front[i] and (not front[i - 1] if (cyc or i > 0) else True)]
+    if len(starts) != 1:
+        return None
+    i0, cnt = starts[0], 0
+    while cnt < n and front[(i0 + cnt) % n] and (cyc or i0 + cnt < n):
+        cnt += 1
+    run = [(i0 + j) % n for j in range(cnt)]
+    before = (i0 - 1) % n if (cyc or i0 > 0) else None
+    after = (i0 + cnt) % n if (cyc or i0 + cnt < n) else None
+    rows = []
+    if before is not None:
+        rows.append(("v", before) if pat[before] == "O" else ("x", before, run[0]))
+    rows.extend(("v", i) for i in run)
+    if after is not None:
+        rows.append(("v", after) if pat[after] == "O" else ("x", run[-1], after))
+    return rows
+
+
+def _slice_kernels():
+    from polliwog import Plane, Polyline
+
+    ref, nrm = [0.5, 0.25, -0.5], [0.6, 0.0, 0.8]
+    off = {"F": 1.5, "B": -2.0, "O": 0.0}
+    PL = "(MkPlane (V3 r0 r1 r2) (V3 m0 m1 m2))"
+    ks = []
+    for pat, closed in SLICE_SCENARIOS:
+        n = len(pat)
+        vs = [[ref[0] + off[ch] * nrm[0], ref[1] + (i + 1.0), ref[2] + off[ch] * nrm[2]] for i, ch in enumerate(pat)]
+        V = ["(V3 v%d v%d v%d)" % (3 * i, 3 * i + 1, 3 * i + 2) for i in range(n)]
+        exp = _expected_rows(pat, closed)
+        name = "slice_%s_%s" % ("closed" if closed else "open", pat or "empty")
+
+        def call(v=None, r=None, m=None, closed=closed, n=n):
+            if v is None:
+                v = np.zeros((0, 3))
+            try:
+                return Polyline(v, is_closed=closed).sliced_by_plane(Plane(r, m)).v
+            except ValueError:
+                return 1
+            except IndexError:
+                return 2
+
+        sd_facts, sign_facts = [], []
+        for i, ch in enumerate(pat):
+            sd = "plane_sd ROps %s %s" % (PL, V[i])
+            fact = {"F": "0 < %s" % sd, "B": "%s < 0" % sd, "O": "%s = 0" % sd}[ch]
+            lem = {"F": "sign_pos", "B": "sign_neg", "O": "sign_zero"}[ch]
+            val = {"F": "1", "B": "(-1)", "O": "0"}[ch]
+            sd_facts.append("  assert (Hs%d : %s) by (cbv [plane_sd sd_eq plane_equation eq_normal ea eb ec ed pref pnormal vdot vx vy vz]; rops; lra)." % (i, fact))
+            sign_facts.append("  assert (S%d : plane_sign ROps %s %s = %s%%Z) by (apply %s; exact Hs%d)." % (i, PL, V[i], val, lem, i))
+        rew = ", ".join("?S%d" % i for i in range(n)) or "?Nat.add_0_r"
+        poly = "(MkPolyline [%s] %s)" % ("; ".join(V), "true" if closed else "false")
+        if n == 0:
+            poly = "(MkPolyline (@nil (vec3 R)) false)"
+        head = ("Definition xrow_coords (x : xrow R) : list R := match x with XPt v => vlist v | XNan => [] end.\n"
+                "Ltac nz := repeat split; first [apply Rgt_not_eq; lra | apply Rlt_not_eq; lra].\n"
+                "Ltac posnat := repeat match goal with |- context [Pos.to_nat ?p] => let k := eval compute in (Pos.to_nat p) in change (Pos.to_nat p) with k end.\n")
+        evalm = ("  unfold sliced_by_plane, slice_any, slice_closed, closed_roll, slice_core.\n"
+                 "  cbn -[crossing_row plane_sign]. do 8 (rewrite %s; posnat; cbn -[crossing_row plane_sign]).\n" % rew)
+        if exp is None:
+            lemma = (head + "Lemma {T}_ok : forall {vars} : R, {T}_path ROps {vars} ->\n"
+                     "  sliced_by_plane ROps %s %s = Raise ValueError.\n"
+                     "Proof. intros {vars} Hpath. unfold {T}_path in Hpath. cbv zeta in Hpath. rops. path_facts Hpath.\n"
+                     "%s\n%s\n%s  reflexivity. Qed." % (PL, poly, "\n".join(sd_facts), "\n".join(sign_facts), evalm))
+            lemma = lemma.replace("forall  : R, ", "").replace("intros  Hpath", "intros Hpath")
+            expect = 1
+        else:
+            rows = ["XPt %s" % V[e[1]] if e[0] == "v" else "XPt (crossing %s %s %s)" % (PL, V[e[1]], V[e[2]]) for e in exp]
+            rows = "[%s]" % "; ".join(rows)
+            lemma = (head + "Lemma {T}_ok : forall {vars} : R, {T}_path ROps {vars} ->\n"
+                     "  sliced_by_plane ROps %s %s = Ok %s /\\\n  {T} ROps {vars} = flat_map xrow_coords %s.\n"
+                     "Proof. intros {vars} Hpath. unfold {T}_path in Hpath. cbv zeta in Hpath. rops. path_facts Hpath.\n"
+                     "%s\n%s\n  split.\n  {\n%s"
+                     "    rewrite ?crossing_row_is_point by (first [left; split; assumption | right; split; assumption]). reflexivity. }\n"
+                     "  cbv [plane_sd sd_eq plane_equation eq_normal ea eb ec ed pref pnormal vdot vx vy vz] in *; rops.\n"
+                     "  unfold {T}, crossing, crossing_t, xsect_t. cbv zeta.\n"
+                     "  cbv [flat_map xrow_coords app vlist vadd vscale vsub vdot vx vy vz pref pnormal]; rops.\n"
+                     "  list_eq ltac:(first [reflexivity | ring | (field; nz)]). Qed."
+                     % (PL, poly, rows, rows, "\n".join(sd_facts), "\n".join(sign_facts), evalm))
+            expect = None
+        inputs = {"v": vs, "r": ref, "m": nrm} if n else {"r": ref, "m": nrm}
+        ks.append(Kernel(name, inputs, call, lemma, perturb=(0.0 if "O" in pat else 1e-9), expect_structure=expect, validate_n=4,
+                         imports=IMPORTS + [("PW.proofs", "P_plane"), ("PW.proofs", "P_polyline_slice")]))
     return ks
 
 
